@@ -25,7 +25,7 @@ RULE = ('Hypothesis RuleBasedStateMachine over a per-history pool of 3-5 rule fi
         'classification; distinct by hash of the step list.')
 ASSUMPTIONS = ['the fresh-process oracle is a fork of an interpreter that has only imported tally (no rule loaded, nothing evaluated)',
                'relative-date CSV modifiers are not generated (clock independence)']
-REQUIRED_CLASSES = ['rules_then_csv', 'csv_then_rules', 'same_path_rewrite', 'failed_load_then_classify', 'case_variant_exprs', 'same_expr_different_vars']
+REQUIRED_CLASSES = ['edit_and_reload', 'rules_then_csv', 'csv_then_rules', 'same_path_rewrite', 'failed_load_then_classify', 'case_variant_exprs', 'same_expr_different_vars']
 
 
 class Server:
@@ -106,11 +106,39 @@ FMT = '{date:%Y-%m-%d},{description},{amount},{memo},{type}'
 def file_pool(draw):
     """3-5 files; overlapping rule names / patterns so that stale state is visible."""
     files = []
-    for i in range(draw(st.integers(3, 5))):
-        kind = draw(st.sampled_from(['rules', 'rules', 'csv', 'corrupt']))
-        if kind == 'rules':
+    n_files = draw(st.integers(3, 5))
+    for i in range(n_files):
+        kind = draw(st.sampled_from(['rules', 'rules', 'csv', 'corrupt', 'edited']))
+        prev = [f for f in files if f.get('rf') and f['rf']['rules']]
+        if i == n_files - 1 and prev and not any(f.get('edited') is not None for f in files):
+            kind = 'edited'  # every pool with a rules file also has an edited copy of one
+        if kind == 'edited' and prev:
+            # "the user edited the file": a copy of an earlier file in which ONE attribute of one rule changed (its name and match text stay) - whatever
+            # the process remembers about a rule by name / expression must not survive the reload
+            base_f = draw(st.sampled_from(prev))
+            base = base_f['rf']
+            k = draw(st.integers(0, len(base['rules']) - 1))
+            r = dict(base['rules'][k])
+            what = draw(st.sampled_from(['priority', 'priority', 'category', 'subcategory', 'tags', 'merchant', 'position']))
+            if what == 'priority':
+                r['priority'] = draw(st.sampled_from([p for p in (None, 0, 10, 90, 100) if p != r.get('priority')]))
+            elif what == 'category':
+                r['category'] = 'Edited Category' if r['category'] else r['category']
+            elif what == 'subcategory':
+                r['subcategory'] = 'Edited Sub'
+            elif what == 'tags':
+                r['tags'] = list(r['tags']) + ['edited']
+            elif what == 'merchant':
+                r['merchant'] = 'Edited Merchant'
+            rules2 = list(base['rules'])
+            rules2[k] = r
+            if what == 'position':
+                rules2.append(rules2.pop(k))
+            rf = dict(base, rules=rules2)
+            files.append({'kind': 'rules', 'name': f'f{i}.rules', 'text': R.render_file(rf), 'rf': rf, 'edited': files.index(base_f)})
+        elif kind in ('rules', 'edited'):
             rf = draw(R.rule_file(max_rules=5, depth=1))
-            files.append({'kind': 'rules', 'name': f'f{i}.rules', 'text': R.render_file(rf)})
+            files.append({'kind': 'rules', 'name': f'f{i}.rules', 'text': R.render_file(rf), 'rf': rf})
         elif kind == 'csv':
             rules = [r for r in draw(csvrules.csv_file(max_rules=5, escapes=True)) if not csvrules.looks_like_expression(r['pattern']) and not r['pattern'].startswith('#')]
             files.append({'kind': 'csv', 'name': f'f{i}.csv', 'text': csvrules.render_csv(rules)})
@@ -119,6 +147,14 @@ def file_pool(draw):
                           'text': draw(st.sampled_from(['[Broken]\ncategory: X\n', '[A]\nmatch: contains("UBER"\ncategory: X\n', '[A]\nmatch: True\nbogus: 1\ncategory: X\n',
                                                         'Pattern,Merchant,Category,Subcategory\nUBER,Uber,Transport,Ride\n']))})
     return files
+
+
+@st.composite
+def world(draw):
+    files = draw(file_pool())
+    rfs = [f['rf'] for f in files if f.get('rf')]
+    txns = [draw(R.txn_for(draw(st.sampled_from(rfs)))) if rfs and draw(st.integers(0, 3)) > 0 else draw(lang.txn_case) for _ in range(4)]
+    return files, txns
 
 
 class History(RuleBasedStateMachine):
@@ -134,7 +170,7 @@ class History(RuleBasedStateMachine):
 
     # ---- helpers
     def case(self):
-        return {'files': self.files, 'txns': self.txns, 'rows': self.rows, 'steps': self.steps}
+        return {'files': [{k: v for k, v in f.items() if k != 'rf'} for f in self.files], 'txns': self.txns, 'rows': self.rows, 'steps': self.steps}
 
     def path(self, i):
         return os.path.join(self.dir, self.files[i % len(self.files)]['name'])
@@ -150,8 +186,9 @@ class History(RuleBasedStateMachine):
                             f'{json.dumps(exp)[:500]}\nhistory: {json.dumps(self.steps)[:1500]}', self.case(), 'history-dependence')
 
     # ---- setup
-    @initialize(files=file_pool(), txns=st.lists(lang.txn_case, min_size=4, max_size=4), rows=lang.rows_case)
-    def setup(self, files, txns, rows):
+    @initialize(w=world(), rows=lang.rows_case)
+    def setup(self, w, rows):
+        files, txns = w
         # one file whose top-level variables depend on custom fields, and transactions with / without those fields:
         # what a variable evaluates to for one transaction must not affect the next
         files = files + [{'kind': 'rules', 'name': 'vars.rules', 'text': VARS_RULES}]
@@ -218,6 +255,20 @@ class History(RuleBasedStateMachine):
         if self.loads and self.loads[-1][0] == 'corrupt':
             self.classes.add('failed_load_then_classify')
         self.compare({'k': 'classify', 'txn': self.txns[t], 'rows': self.rows})
+
+    @precondition(lambda self: self.files is not None and any(f.get('edited') is not None for f in self.files))
+    @rule(pick=st.integers(0, 9), mode=st.sampled_from(['first_match', 'most_specific', 'most_specific']))
+    def edit_and_reload(self, pick, mode):
+        """the everyday history: classify with a file, edit one attribute of one rule, reload, classify again"""
+        edited = [j for j, f in enumerate(self.files) if f.get('edited') is not None]
+        j = edited[pick % len(edited)]
+        self.load(i=self.files[j]['edited'], mode=mode, order='rules_first')
+        for t in range(4):
+            self.classify(t=t)
+        self.load(i=j, mode=mode, order='rules_first')
+        for t in range(4):
+            self.classify(t=t)
+        self.classes.add('edit_and_reload')
 
     @precondition(lambda self: self.files is not None)
     @rule(i=st.integers(0, 5), t=st.integers(0, 3), mode=st.sampled_from(['first_match', 'most_specific']))
